@@ -45,6 +45,9 @@ pub struct Req {
     pub method: u8,
     /// for INVITEs that end up rejected: the peer ACKs this long after the request (None = never)
     pub ack_after: Option<u64>,
+    /// in-dialog only: explicit CSeq (dialog's INVITE CSeq + this) instead of the next one in arrival order
+    #[serde(default)]
+    pub cseq_offset: Option<u8>,
 }
 
 #[derive(Serialize, Deserialize, Clone, Debug, Hash)]
@@ -91,7 +94,7 @@ pub fn strategy() -> BoxedStrategy<Case> {
         0u8..(METHODS.len() as u8),
         prop_oneof![Just(None), Just(Some(250u64)), Just(Some(700u64)), Just(Some(1800u64))],
     )
-        .prop_map(|(gap, kind, method, ack_after)| Req { gap, kind, method, ack_after });
+        .prop_map(|(gap, kind, method, ack_after)| Req { gap, kind, method, ack_after, cseq_offset: None });
     (
         prop_oneof![3 => Just(false), 1 => Just(true)],
         prop::collection::vec(spec_strategy(), 1..5),
@@ -412,7 +415,9 @@ pub fn run(case: &Case) -> Observed {
                 ),
                 Kind::InDialog | Kind::UnknownDialog => {
                     let in_dialog = r.kind == Kind::InDialog && have_dialog;
-                    let cseq = if in_dialog {
+                    let cseq = if let (true, Some(off)) = (in_dialog, r.cseq_offset) {
+                        10 + off as u32
+                    } else if in_dialog {
                         // only requests that reach the dialog layer consume a CSeq of the dialog
                         // (a layer in front of it that takes the request would otherwise leave a gap)
                         if reaches_dialog(&case, method) {
@@ -634,6 +639,148 @@ pub fn check(case: &Case, out: &mut CaseOut) {
     }
 }
 
+// ---------------------------------------------------------------------------------------------
+// in-dialog requests that arrive out of CSeq order and that no usage wants: each still gets its one 404
+
+pub fn reordered_cases(_tier: Tier) -> Vec<Case> {
+    fn perms(items: &[u8]) -> Vec<Vec<u8>> {
+        if items.len() <= 1 {
+            return vec![items.to_vec()];
+        }
+        let mut out = vec![];
+        for i in 0..items.len() {
+            let mut rest = items.to_vec();
+            let x = rest.remove(i);
+            for mut p in perms(&rest) {
+                p.insert(0, x);
+                out.push(p);
+            }
+        }
+        out
+    }
+    let mut out = vec![];
+    for n in 2..=4u8 {
+        for order in perms(&(1..=n).collect::<Vec<u8>>()) {
+            for method in [1u8, 5] {
+                out.push(Case {
+                    reliable: false,
+                    layers: vec![Spec { table: vec![Policy::Inspect; METHODS.len()] }],
+                    dialog_layer_pos: Some(1),
+                    usages: vec![],
+                    invite_layer: true,
+                    requests: order.iter().map(|o| Req { gap: 1, kind: Kind::InDialog, method, ack_after: None, cseq_offset: Some(*o) }).collect(),
+                    rng: n,
+                });
+            }
+        }
+    }
+    out
+}
+
+pub fn check_reordered(case: &Case, out: &mut CaseOut) {
+    let obs = run(case);
+    for s in &obs.sent {
+        let finals: Vec<u16> = obs
+            .wire
+            .iter()
+            .filter_map(|(_, m)| m.as_ref())
+            .filter(|m| !m.is_request() && m.via_branch().as_deref() == Some(s.branch.as_str()) && m.cseq().map(|c| c.0) == Some(s.cseq))
+            .filter_map(|m| m.status())
+            .filter(|c| *c >= 200)
+            .collect();
+        if finals.is_empty() {
+            out.fail("c08.reordered/unanswered", format!("in-dialog {} with CSeq {} (arrival order {:?}) never got a final response", s.method, s.cseq, obs.sent.iter().map(|x| x.cseq).collect::<Vec<_>>()));
+        } else if finals != vec![404] {
+            out.fail("c08.reordered/wrong-or-multiple-answers", format!("in-dialog {} with CSeq {} answered {finals:?}, expected one 404", s.method, s.cseq));
+        }
+    }
+    let order: Vec<u32> = obs.sent.iter().map(|x| x.cseq).collect();
+    if order.windows(2).any(|w| w[0] > w[1]) {
+        out.class("arrival-out-of-cseq-order");
+        out.nontrivial(case);
+    }
+}
+
+// ---------------------------------------------------------------------------------------------
+// requests that hit a pending (unanswered) INVITE held by an acceptor: CANCEL and BYE are claimed by the
+// invite layer / usage, which answers them AND the INVITE; nobody ever ACKs the 487 here
+
+pub fn pending_cases(_tier: Tier) -> Vec<super::c12::Case> {
+    use super::c12::{AppOp, Case as C, NetOp};
+    let cancel = NetOp::Cancel { branch_ok: true, cseq_ok: true };
+    let patterns: Vec<Vec<(u64, NetOp)>> = vec![
+        vec![(5, cancel)],
+        vec![(5, NetOp::Bye)],
+        vec![(5, cancel), (6, NetOp::Bye)],
+        vec![(5, NetOp::Bye), (6, cancel)],
+        vec![(5, cancel), (700, cancel)],
+        vec![(5, NetOp::DupInvite), (6, cancel)],
+        vec![(5, NetOp::Cancel { branch_ok: false, cseq_ok: true })],
+        vec![(5, NetOp::Cancel { branch_ok: true, cseq_ok: false })],
+        vec![(5, cancel), (40_000, NetOp::Bye)],
+    ];
+    let mut out = vec![];
+    for (i, net) in patterns.into_iter().enumerate() {
+        for app in [vec![], vec![(1u64, AppOp::Prov180)]] {
+            for net_first in [false, true] {
+                out.push(C { app: app.clone(), net: net.clone(), net_first, rng: i as u8 });
+            }
+        }
+    }
+    out
+}
+
+pub fn check_pending(case: &super::c12::Case, out: &mut CaseOut) {
+    use super::c12::NetOp;
+    let last = case.net.iter().map(|n| n.0).max().unwrap_or(0);
+    let obs = super::c12::run(case, last + 80_000);
+    // every request the peer sent, by top-Via branch
+    let mut branches: Vec<(String, String, u64)> = vec![("z9hG4bKc12invite".into(), "INVITE".into(), 0)];
+    let mut n = 0;
+    for (t, op) in &case.net {
+        n += 1;
+        match op {
+            NetOp::Cancel { branch_ok, .. } => {
+                let b = if *branch_ok { "z9hG4bKc12invite".to_string() } else { "z9hG4bKc12invitex".to_string() };
+                if !branches.iter().any(|(bb, m, _)| *bb == b && m == "CANCEL") {
+                    branches.push((b, "CANCEL".into(), *t));
+                }
+            }
+            NetOp::Bye => branches.push((format!("z9hG4bKc12bye{n}"), "BYE".into(), *t)),
+            _ => {}
+        }
+    }
+    let decisive = case.net.iter().any(|(_, o)| matches!(o, NetOp::Bye | NetOp::Cancel { branch_ok: true, cseq_ok: true }));
+    for (branch, method, t) in &branches {
+        let finals: Vec<(u64, u16, &[u8])> = obs
+            .wire
+            .iter()
+            .filter_map(|(s, m)| m.as_ref().map(|m| (s, m)))
+            .filter(|(_, m)| !m.is_request() && m.via_branch().as_deref() == Some(branch.as_str()) && m.cseq().map_or(false, |c| &c.1 == method))
+            .filter(|(_, m)| m.status().unwrap_or(0) >= 200)
+            .map(|(s, m)| (s.t_ms, m.status().unwrap_or(0), &s.bytes[..]))
+            .collect();
+        let mut distinct: Vec<&[u8]> = finals.iter().map(|f| f.2).collect();
+        distinct.sort();
+        distinct.dedup();
+        if method == "INVITE" && !decisive {
+            if !finals.is_empty() {
+                out.fail("c08.pending/invite-answered-without-cause", format!("pending INVITE got {:?}", finals.iter().map(|f| f.1).collect::<Vec<_>>()));
+            }
+            continue;
+        }
+        if finals.is_empty() {
+            out.fail(format!("c08.pending/{}-unanswered", method.to_lowercase()), format!("{method} (branch {branch}, sent at {t} ms) never got a final response although nobody ACKs the 487"));
+        } else if distinct.len() > 1 {
+            out.fail(format!("c08.pending/{}-two-different-finals", method.to_lowercase()), format!("{method} got {:?}", finals.iter().map(|f| f.1).collect::<Vec<_>>()));
+        }
+        // (when the answer comes is not part of the statement: a BYE behind a CANCEL is answered only once the
+        // un-ACKed 487 has been given up, 35 s later — noted, not asserted)
+    }
+    out.class("request-hits-pending-invite");
+    out.nontrivial(case);
+}
+
 pub fn property() -> Property {
     Property {
         id: "C08",
@@ -644,6 +791,10 @@ pub fn property() -> Property {
             "instants where an ACK coincides with a timer-G instant are don't-cares",
         ],
         explanation: "sampled stacks and request mixes",
-        subs: vec![prop_sub("stack", strategy, 2500, 40000, check)],
+        subs: vec![
+            prop_sub("stack", strategy, 2500, 40000, check),
+            enum_sub("pending_invite", pending_cases, check_pending),
+            enum_sub("reordered_in_dialog", reordered_cases, check_reordered),
+        ],
     }
 }
